@@ -329,7 +329,7 @@ def embedded_value_contract():
         Case('element-of-a-grammar-valid-container', when=lambda c: opaque(c) is not None,
              returns=lambda c: (mk_int(opaque(c).len), SOpaque('fv', wire.value_obj(opaque(c).t))), need_cover=False),
         Case('nothing-left', when=empty, returns=lambda c: (0, None)),
-        Case('grammar-valid-value', when=good, returns=lambda c: (parsed(c)[1], parsed(c)[0])),
+        Case('grammar-valid-value', when=good, returns=lambda c: (parsed(c)[1], parsed(c)[0]), fresh_result=True),
         Case('unknown-type-tag', when=unknown, raises=ValueError),
         Case('anything-else', when=other, havoc=havoc, post=lambda c, r: isinstance(r, tuple) and len(r) == 2 and is_int(r[0]),
              may_raise=RAISES_DECODE, garbles=True),
@@ -513,7 +513,7 @@ def container_decoder(kind, total=False):
     lp.run_while = run_while
 
     return Contract(DEC + name, [('value', insts)], setup=setup, cases=[
-        Case('grammar-valid-' + kind, when=good, returns=out),
+        Case('grammar-valid-' + kind, when=good, returns=out, fresh_result=True),
         Case('anything-else', when=lambda c: neg(good(c)), havoc=havoc, garbles=True,
              post=lambda c, r: isinstance(r, tuple) and len(r) == 2 and is_int(r[0]), may_raise=RAISES_DECODE),
     ], loops={(DEC + name, 0): lp}, bounded=True, complete=True, fallback=weakest(RAISES_DECODE),
